@@ -2035,3 +2035,8 @@ pwsJtT3sJB2q5NoA
         }
     }
 }
+
+// verification hook (add-only, inert unless built by `cargo kani`, which sets --cfg kani)
+#[cfg(kani)]
+#[path = "/verif/kani/sig_types_harness.rs"]
+mod verif_kani;
